@@ -77,6 +77,11 @@ fn main() {
             observe::install_panic_hook();
             let captured = if std::env::var("JL_NOCAPTURE").is_ok() { false } else { observe::capture_start() };
             c.extra.insert("log_capture".into(), json!(captured));
+            // bounded termination: 10 s of CPU inside one call (> 30x the slowest legitimate call observed)
+            let budget_s: u64 = std::env::var("JL_CPU_BUDGET_S").ok().and_then(|s| s.parse().ok()).unwrap_or(10);
+            if let Some(p) = &out {
+                observe::wd_start(Some(format!("{}.hang", p)), budget_s * 1_000_000_000);
+            }
             let t0 = std::time::Instant::now();
             let known = run_property(&mut c);
             observe::capture_stop();
@@ -161,6 +166,8 @@ fn replay(rec: &Value) -> i32 {
 /// Library reached without bin.rs / __init__.py: one JSON record per input line.
 /// Output per call: the raw lines printed by `log`, then `@@RET {"ok": <text>} | {"err": msg} | {"parse_error": which}`.
 fn libcall() {
+    let budget_s: u64 = std::env::var("JL_CPU_BUDGET_S").ok().and_then(|s| s.parse().ok()).unwrap_or(10);
+    observe::wd_start(None, budget_s * 1_000_000_000);
     let stdin = std::io::stdin();
     for line in stdin.lock().lines() {
         let line = match line {
@@ -184,7 +191,12 @@ fn libcall() {
         let ret = match (r, d) {
             (Err(e), _) => json!({"parse_error": "rule", "msg": e.to_string()}),
             (_, Err(e)) => json!({"parse_error": "data", "msg": e.to_string()}),
-            (Ok(r), Ok(d)) => match observe::call(&r, &d) {
+            (Ok(r), Ok(d)) => match {
+                observe::wd_arm(&r, &d);
+                let o = observe::call(&r, &d);
+                observe::wd_disarm();
+                o
+            } {
                 observe::Outcome::Ok(v) => json!({"ok": v.to_string()}),
                 observe::Outcome::Err(e) => json!({ "err": e }),
                 observe::Outcome::Panic(p) => json!({ "panic": p }),
